@@ -59,6 +59,35 @@ fn c04_q_spsc_closed_receiver_conversion() {
   kani::cover!(!to_async, "async to sync");
 }
 
+/// C01 (unusual input): a batch receive with a huge `max` ("drain everything") returns what is buffered
+/// - it must not report Empty / Disconnected because the requested size cannot be reserved.
+#[kani::proof]
+#[kani::unwind(5)]
+fn c01_q_spsc_recv_batch_huge_max() {
+  let (tx, rx) = spsc::bounded_sync::<u8>(2);
+  let n: u8 = kani::any();
+  kani::assume(n >= 1 && n <= 2);
+  let mut i = 0u8;
+  while i < n {
+    assert!(tx.try_send(i).is_ok(), "C03: prefill failed");
+    i += 1;
+  }
+  let drop_sender: bool = kani::any();
+  let tx = if drop_sender { drop(tx); None } else { Some(tx) };
+  let huge: bool = kani::any();
+  let max = if huge { usize::MAX } else { usize::MAX / 2 };
+  match rx.try_recv_batch(max) {
+    Ok(v) => {
+      assert!(v.len() == n as usize && v[0] == 0, "C01: batch receive returned the wrong values");
+      std::mem::forget(v);
+    }
+    Err(_) => assert!(false, "C01: batch receive with a huge max reported Empty/Disconnected although values are buffered"),
+  }
+  kani::cover!(drop_sender, "sender already gone");
+  std::mem::forget(rx);
+  std::mem::forget(tx);
+}
+
 /// vacuity twin: must FAIL
 #[kani::proof]
 #[kani::unwind(3)]
